@@ -486,7 +486,7 @@ class Repo:
         if expand:
             from .inline import expand as _expand
             trees = {n: m.tree for n, m in self.modules.items()}
-            self.expanded = _expand(trees, keep=ANCHORED_PRIVATE)
+            self.expanded = _expand(trees, keep=self._role_keep(trees))
             for m in self.modules.values():
                 m.tree = normalise(m.tree)
                 m.build()
@@ -497,6 +497,34 @@ class Repo:
                 with open(p, 'rb') as fh:
                     raw = fh.read()
                 self.docs[rel] = (raw.decode('utf-8'), hashlib.sha256(raw).hexdigest())
+
+    @staticmethod
+    def _role_keep(trees):
+        """Helpers the inlined form leaves alone: the frozen list of today's role-bearing private helpers, adjusted by
+        role — a method that assigns the cached shape of the handle (the length committer) is always kept; a customary
+        committer name that has become a thin wrapper around such a method is not (it is inlined into its callers, so
+        that every commit is a call of the one function that does the work)."""
+        keep = set(ANCHORED_PRIVATE)
+        core = set()
+        thin = set()
+        for tree in trees.values():
+            for c in [n for n in tree.body if isinstance(n, ast.ClassDef)]:
+                for m in [n for n in c.body if isinstance(n, ast.FunctionDef)]:
+                    if m.name == '__init__':
+                        continue
+                    if any(isinstance(n, ast.Assign) and any(isinstance(t, ast.Attribute) and t.attr == '_shape' and
+                                                             isinstance(t.value, ast.Name) and t.value.id == 'self'
+                                                             for t in n.targets) for n in ast.walk(m)):
+                        core.add(m.name)
+        for tree in trees.values():
+            for c in [n for n in tree.body if isinstance(n, ast.ClassDef)]:
+                for m in [n for n in c.body if isinstance(n, ast.FunctionDef)]:
+                    body = [s for s in m.body if not (isinstance(s, ast.Expr) and isinstance(s.value, ast.Constant))]
+                    if m.name in keep and m.name not in core and len(body) == 1 and isinstance(body[0], (ast.Expr, ast.Return)) and \
+                            isinstance(body[0].value, ast.Call) and isinstance(body[0].value.func, ast.Attribute) and \
+                            body[0].value.func.attr in core:
+                        thin.add(m.name)
+        return frozenset((keep | core) - thin)
 
     # -- lookups -------------------------------------------------------
     def module(self, name):
